@@ -473,15 +473,25 @@ def check_class(ck, tab, cache, origin, rng, demand_equal, collect):
     # -- protected names / descriptor ---------------------------------------------------------
     for p in PROTECTED:
         if p in methods:
-            ck.report("protected-advertised:%s:%s" % (key_cls, p),
+            ck.report("protected-advertised:%s:%s" % (origin, p),
                       "the interface descriptor of %s lists the protected name %r as an RPC method" % (fq, p),
                       rep({"name": p}))
     prot_marked = [p for p in PROTECTED if static_marked(cls, p) and
                    isinstance(inspect.getattr_static(cls, p), (types.FunctionType, staticmethod))]
     if prot_marked and dcode == 0:
-        ck.report("protected-not-refused:%s:%s" % (key_cls, prot_marked[0]),
+        ck.report("protected-not-refused:%s:%s" % (origin, prot_marked[0]),
                   "%s marks the protected name %r as rpc_method but make_interface_descriptor does not refuse it"
                   % (fq, prot_marked[0]), rep({"name": prot_marked[0]}))
+    if dcode == 1 and not prot_marked:
+        ck.report("descriptor-refused-without-cause:%s" % origin,
+                  "make_interface_descriptor refuses %s with the protected-name error although the class marks none of "
+                  "lock/unlock/force_unlock/is_locked (no object of the class can be created)" % fq, rep({}))
+    for nm in methods:
+        if not (static_marked(cls, nm) and isinstance(inspect.getattr_static(cls, nm), (types.FunctionType, staticmethod))):
+            k = T.resolve(tab, cache, nm)
+            ck.report("advertised-unmarked:%s:%s" % (origin, k[0] if k else "nonmember"),
+                      "the interface descriptor of %s advertises %r, which is not a function marked with rpc_method "
+                      "(kind %s)" % (fq, nm, T.kind_term(k) if k else "not a class member"), rep({"name": nm}))
     # -- proxy ---------------------------------------------------------------------------------
     kproxy = "None"
     if iface is not None:
@@ -495,7 +505,7 @@ def check_class(ck, tab, cache, origin, rng, demand_equal, collect):
             kproxy = "(Some (%s, %s))" % (T.coq_names(sorted(fw)), cbool(intact))
             over = [p for p in PROTECTED if p in vars(proxy)]
             if [p for p in over if p in fw]:
-                ck.report("proxy-lock-control-overwritten:%s" % key_cls,
+                ck.report("proxy-lock-control-overwritten:%s" % origin,
                           "a proxy built from the descriptor of %s has its own lock control %r replaced by forwarding "
                           "RPC methods" % (fq, [p for p in over if p in fw]),
                           rep({"proxy_attrs": sorted(vars(proxy))[:80]}))
@@ -504,7 +514,7 @@ def check_class(ck, tab, cache, origin, rng, demand_equal, collect):
                 # C05 (class_ok excludes it for every shipped class); compared with the model, and counted
                 ck.count("proxy:lock-control-shadowed-by-constant-or-signal")
             if demand_equal and set(fw) != set(methods):
-                ck.report("proxy-methods-differ:%s" % key_cls,
+                ck.report("proxy-methods-differ:%s" % origin,
                           "the proxy of %s forwards %r but the descriptor advertises %r"
                           % (fq, sorted(set(fw) ^ set(methods)), sorted(methods)[:10]), rep({}))
             meta["proxy"] = proxy
@@ -540,7 +550,7 @@ def check_class(ck, tab, cache, origin, rng, demand_equal, collect):
                 accepted.append(nm)
                 code = 0
                 if not static_marked(obj, nm):
-                    ck.report("unmarked-accepted:%s:%s" % (key_cls, _nk(nm, k, origin)),
+                    ck.report("unmarked-accepted:%s:%s" % (origin, k[0] if k else "nonmember"),
                               "request naming %r on %s is accepted although the attribute was never marked with "
                               "rpc_method (kind %s)" % (nm, fq, T.kind_term(k) if k else "not a class member"),
                               rep({"name": nm, "route": "A"}))
@@ -550,14 +560,14 @@ def check_class(ck, tab, cache, origin, rng, demand_equal, collect):
                     except BaseException:  # noqa
                         same = False
                     if not same:
-                        ck.report("wrong-callable:%s" % key_cls,
+                        ck.report("wrong-callable:%s" % origin,
                                   "request naming %r on %s would call %r, which is not the object's own attribute"
                                   % (nm, fq, det), rep({"name": nm, "route": "A"}))
             elif kind == "unknown":
                 code = 4 if is_prop else det
             else:
                 code = 4 if is_prop else 9
-                where = (ran_f[0] if ran_f else "%s.%s" % (short, nm)) if origin == "shipped" else "generated"
+                where = (ran_f[0] if (ran_f and origin == "shipped") else "%s:%s" % (origin, k[0] if k else "nonmember"))
                 ck.report("wrong-error:%s:%s" % (where, det),
                           "request naming %r on %s is answered with %s instead of the unknown-RPC error%s"
                           % (nm, fq, det, " (hasattr() ran the property getter %s, which raised)" % ran_f[0] if ran_f else ""),
@@ -572,12 +582,12 @@ def check_class(ck, tab, cache, origin, rng, demand_equal, collect):
             kind, det, ran = route_a(th, ns, watch)
             ck.count("nonstring-name:" + kind)
             if kind == "accept" or [x for x in ran if not x.endswith(".__getattr__")]:
-                ck.report("nonstring-accepted:%s" % key_cls, "request naming %r on %s: %s %r" % (ns, fq, kind, ran),
+                ck.report("nonstring-accepted:%s" % origin, "request naming %r on %s: %s %r" % (ns, fq, kind, ran),
                           rep({"name": repr(ns)}))
         # advertised == accepted
         if demand_equal and dcode == 0 and set(accepted) != set(methods):
             diff = sorted(set(accepted) ^ set(methods))
-            ck.report("advertised-ne-invocable:%s:%s" % (key_cls, _nk(diff[0], T.resolve(tab, cache, diff[0]), origin)),
+            ck.report("advertised-ne-invocable:%s:%s" % (origin, (T.resolve(tab, cache, diff[0]) or ("nonmember",))[0]),
                       "%s: advertised but not invocable %r; invocable but not advertised %r"
                       % (fq, sorted(set(methods) - set(accepted)), sorted(set(accepted) - set(methods))),
                       rep({"advertised": sorted(methods), "accepted": sorted(accepted)}))
@@ -599,17 +609,17 @@ def check_class(ck, tab, cache, origin, rng, demand_equal, collect):
                 if origin == "shipped" or (CALLS and good):
                     good = good and det == ("stub", nm) and executed[0][1] == (41,) and executed[0][2] == {"kw": 1}
                 if not good:
-                    ck.report("handler-accept:%s" % key_cls,
+                    ck.report("handler-accept:%s" % origin,
                               "handler on the accepted name %r of %s: reply %s %r, executed %r (expected exactly one "
                               "call of that method)" % (nm, fq, kind, det, executed[:3]),
                               rep({"name": nm, "route": "B"}))
             else:
                 if executed:
-                    ck.report("rejected-but-executed:%s:%s" % (key_cls, _nk(nm, k, origin)),
+                    ck.report("rejected-but-executed:%s:%s" % (origin, k[0] if k else "nonmember"),
                               "request naming %r on %s (not RPC-callable) executed %r" % (nm, fq, executed[:3]),
                               rep({"name": nm, "route": "B"}))
                 elif kind != "unknown" and not is_getter_only and not (k is not None and k[0] in ("KProperty", "KOther")):
-                    ck.report("handler-reject:%s:%s" % (key_cls, _nk(nm, k, origin)),
+                    ck.report("handler-reject:%s:%s:%s" % (origin, k[0] if k else "nonmember", kind),
                               "request naming %r on %s (not RPC-callable) is answered with %s %r instead of the "
                               "unknown-RPC error" % (nm, fq, kind, det), rep({"name": nm, "route": "B"}))
         # locked object: nothing runs whatever the name
@@ -621,7 +631,7 @@ def check_class(ck, tab, cache, origin, rng, demand_equal, collect):
                 del glog[:]
             kind, det, ran = route_b(th, nm, watch)
             if kind != "locked" or CALLS or (glog is not None and glog):
-                ck.report("locked-executes:%s" % key_cls, "locked %s: request %r without token gives %s and executes %r"
+                ck.report("locked-executes:%s" % origin, "locked %s: request %r without token gives %s and executes %r"
                           % (fq, nm, kind, CALLS[:2]), rep({"name": nm, "route": "B-locked"}))
         th._locking_token = None
         # ---- every forwarding method of the real proxy, back through the real handler ---------------
@@ -633,7 +643,7 @@ def check_class(ck, tab, cache, origin, rng, demand_equal, collect):
                 try:
                     getattr(proxy.rpc_nonblocking, nm)(41, kw=1)
                 except BaseException as e:  # noqa
-                    ck.report("proxy-forward:%s" % key_cls, "non-blocking proxy call %s.%s raised %r" % (fq, nm, e),
+                    ck.report("proxy-forward:%s" % origin, "non-blocking proxy call %s.%s raised %r" % (fq, nm, e),
                               rep({"name": nm}))
                     continue
                 reqs = [m for m in pctx.sent if type(m) is rpc.QMI_MethodRpcRequestMessage]
@@ -648,7 +658,7 @@ def check_class(ck, tab, cache, origin, rng, demand_equal, collect):
                     ok = replym.state == rpc.QMI_RpcFutureState.RESULT_IS_VALUE and len(executed) == 1 \
                         and executed[0][0] == nm
                 if not ok and demand_equal:
-                    ck.report("proxy-roundtrip:%s" % key_cls,
+                    ck.report("proxy-roundtrip:%s" % origin,
                               "calling %s through the real proxy of %s does not execute exactly that method"
                               % (nm, fq), rep({"name": nm}))
                 ck.count("proxy-roundtrip")
@@ -997,10 +1007,12 @@ def run(ck):
     # ---- model ---------------------------------------------------------------------------------------------------
     bad = ck.run_model(CORR, "check_case", terms, "case", shard=12)
     ck.coverage["correspondence_disagreements"] = len(bad)
-    for i in bad[:6]:
+    for i in bad[:3] + bad[-3:]:
         m = metas[i]
         parts = ck.model_eval(CORR, "(check_parts %s, bad_probes %s)" % (terms[i], terms[i]))
-        ck.report("corr:%s:%s" % (m["origin"], m["class"].split(".")[-1] if m["origin"] == "shipped" else "class"),
+        ck.report("corr:%s:%s" % (m["origin"], "-".join(x for x, t in zip(("probes", "descriptor", "proxy"),
+                                                                         __import__("re").findall(r"true|false", parts)[:3])
+                                                  if t == "false") or "x"),
                   "implementation and Coq model disagree on class %s (probes/descriptor/proxy agree = %s)"
                   % (m["class"], parts[:300]),
                   {"class": m["class"], "origin": m["origin"], "gen": collect["gen_params"], "model": parts[:2000],
